@@ -36,6 +36,16 @@ BasisOK(e) ==
         /\ ((FLt(x, Kn(t, i)) \/ FLt(Kn(t, i + k), x)) => FEq(e.vals[i + 1][1][q], FZ))   \* vanishes outside its k spans
   /\ \A q \in 1..Len(e.xs) : InDomain(t, e.xs[q]) =>
         FClose(FSumL([i \in 1..n |-> e.vals[i][1][q]]), FOne, FOne)             \* sums to one, right end point included
+  \* the collocation matrix on all the sites (more sites than functions): row j, column i is B_i at site j
+  /\ ("matrix" \in DOMAIN e => /\ Len(e.matrix) = Len(e.sites)
+                              /\ \A j \in 1..Len(e.sites) : /\ Len(e.matrix[j]) = n
+                                                            /\ \A i \in 0..(n - 1) : LET w == DBasis(t, i, k, 0, e.sites[j]) IN FClose(e.matrix[j][i + 1], w.v, w.s))
+  \* the Python-facing class on the unit-coefficient spline: a float abscissa gives D^m B_i through all three methods
+  \* (first / second-order results carry no variables)
+  /\ ("pyvals" \in DOMAIN e => \A r \in 1..Len(e.pyvals) :
+        LET v == e.pyvals[r] w == DBasis(t, v.i, k, v.m, e.xs[v.q])
+            kind == IF v.fn = "ppdnev_single" THEN "F" ELSE IF v.fn = "ppdnev_single_dual" THEN "D1" ELSE "D2"
+        IN /\ IsNum(v.res) /\ v.res.k = kind /\ NamesOf(v.res) = {} /\ FClose(v.res.re, w.v, w.s))
 
 \* the dual-abscissa entry points: value D^m B_i(x), first order D^(m+1) B_i * dx, second order D^(m+1) B_i * d2x +
 \* D^(m+2) B_i * dx dx^T (chain rule on the piecewise polynomial), kind and variable list of the abscissa kept
